@@ -166,6 +166,19 @@ def subterms(t):
     if isinstance(t, tuple):
         if t and isinstance(t[0], str) and t[0] in TAGS:
             yield t
+            if t[0] in ("call", "new", "alloc") and len(t) >= 4 and isinstance(t[3], tuple) \
+                    and all(isinstance(kv, tuple) and len(kv) == 2 and isinstance(kv[0], str) for kv in t[3]):
+                # keyword arguments are (name, value) pairs: a name such as `idx` or `max` is not a term tag
+                for x in t[1:3]:
+                    if isinstance(x, tuple):
+                        yield from subterms(x)
+                for _, v in t[3]:
+                    if isinstance(v, tuple):
+                        yield from subterms(v)
+                for x in t[4:]:
+                    if isinstance(x, tuple):
+                        yield from subterms(x)
+                return
         for x in t:
             if isinstance(x, tuple):
                 yield from subterms(x)
@@ -1537,6 +1550,12 @@ class Walker:
         fused = fuse_mapped_domain(dom)
         if fused is not None:
             dom = fused[0]
+        elif dom[0] == "call" and dom[1] == ("builtin", "map") and len(dom[2]) == 2 and not dom[3] \
+                and dom[2][0][0] == "builtin" and dom[2][0][1] in ("int", "float", "str", "abs", "bool"):
+            # `for q in map(int, xs)` visits xs in order and sees int(x)
+            conv = dom[2][0]
+            dom = dom[2][1]
+            fused = (dom, lambda elem, conv=conv: ("call", conv, (elem,), ()))
         sliced = self._slice_domain(dom)
         if sliced is not None:
             dom = sliced[0]
@@ -2133,6 +2152,7 @@ class Walker:
                 if len(cands) == 1 and api_signature(cands[0]) is None and self.inline(cands[0]) \
                         and len(self.fnstack) <= self.max_depth and cands[0] not in self.fnstack:
                     return self.inline_call(cands[0], recv, args, kwargs, e)
+            args, kwargs = self._positional(meth, args, kwargs)
             t = ("call", fn, args, kwargs)
             self.emit("call", e, target=fn, value=t, name=meth, args=args, kwargs=kwargs)
             if recv[0] == "alloc" and recv[1] == "list" and recv[-1] in self.__dict__.get("lists", {}) \
@@ -2175,6 +2195,38 @@ class Walker:
         t = ("call", fn, args, kwargs)
         self.emit("call", e, target=fn, value=t, name=fname or show(fn), args=args, kwargs=kwargs)
         return t
+
+    def _positional(self, meth: str, args, kwargs):
+        """`g.create_arcs(k=best_k, distance_function=f)` is `g.create_arcs(best_k, f)`: keyword arguments of a call to a
+        method of the library are put in the positions the (unique) signature of that name gives them."""
+        if not kwargs or any(k == "**" for k, _ in kwargs):
+            return args, kwargs
+        memo = self.repo.memo.setdefault("method_params", {})
+        if meth not in memo:
+            sigs = set()
+            for mi in self.repo.modules.values():
+                for ci in mi.classes.values():
+                    fi = ci.methods.get(meth)
+                    if fi is not None and not fi.node.args.vararg and not fi.node.args.kwarg and not fi.node.args.kwonlyargs:
+                        sigs.add(tuple(p for p in fi.params if p != "self"))
+                    elif fi is not None:
+                        sigs.add(None)
+            memo[meth] = next(iter(sigs)) if len(sigs) == 1 else None
+        params = memo[meth]
+        if params is None:
+            return args, kwargs
+        kw = dict(kwargs)
+        rest = params[len(args):]
+        if not set(kw) <= set(rest):
+            return args, kwargs
+        out = list(args)
+        left = dict(kw)
+        for p in rest:
+            if p in left:
+                out.append(left.pop(p))
+            else:
+                break  # a gap (parameter left at its default): the remaining ones stay keywords
+        return tuple(out), tuple((k, v) for k, v in kwargs if k in left)
 
     def call_closure(self, fn: Term, args, kwargs, e: ast.Call, env: Dict[str, Term]) -> Optional[Term]:
         if fn[0] == "closure" and len(fn) == 4 and fn[3] in self.closures and fn[2] == self.fnstack[-1].fq \
